@@ -102,3 +102,53 @@ Definition tasks_of (s : sst) : list (nat * list node) :=
 (* every listed order lets every container node run its check *)
 Definition covering (nodes : list node) (orders : list (list node)) : Prop :=
   forall o, In o orders -> incl nodes o.
+
+(* ---- several REP rules (policies like "REP 1 IN X REP 2 IN Y") --------------------- *)
+(* One placement vector and one copies number per rule; the vectors may share nodes.
+   The per-node check is the same finished model (process_object walks the rules in
+   order with ONE processPlacementContext: localNodeInContainer, needLocalCopy and the
+   node cache are shared by the rules). *)
+Definition rule := (list node * nat)%type.
+
+Definition mnode_result (rules : list rule) (holds : list node) (v : node) : result :=
+  process_object true (cluster_env holds v) Regular None 1
+                 (NetOk (map fst rules) (map snd rules) []).
+
+Definition mnode_step (rules : list rule) (holds : list node) (v : node) : list node :=
+  if memb v holds then
+    let r := mnode_result rules holds v in
+    let h := add_all (r_succ r) holds in
+    if existsb is_redundant (r_dels r) then remove v h else h
+  else holds.
+
+Definition mround (rules : list rule) (order : list node) (holds : list node) : list node :=
+  fold_left (mnode_step rules) order holds.
+
+Fixpoint mrounds (rules : list rule) (orders : list (list node)) (holds : list node) : list node :=
+  match orders with
+  | [] => holds
+  | o :: r => mrounds rules r (mround rules o holds)
+  end.
+
+Definition mnode_tasks (rules : list rule) (holds : list node) (v : node) : list (nat * list node) :=
+  if memb v holds then r_tasks (mnode_result rules holds v) else [].
+
+(* container nodes = nodes of any vector *)
+Definition in_container (rules : list rule) (n : node) : Prop :=
+  exists r, In r rules /\ In n (fst r).
+
+Definition rule_ok (r : rule) : Prop :=
+  NoDup (fst r) /\ 0 < snd r /\ snd r <= length (fst r).
+
+Definition total_R (rules : list rule) : nat := fold_right (fun r a => snd r + a) 0 rules.
+
+Definition mcovering (rules : list rule) (orders : list (list node)) : Prop :=
+  forall o, In o orders -> forall n, in_container rules n -> In n o.
+
+(* every primary node of every rule holds the object *)
+Definition restored (rules : list rule) (holds : list node) : Prop :=
+  forall r p, In r rules -> In p (primaries (fst r) (snd r)) -> In p holds.
+
+(* number of (rule, primary node) pairs whose node misses the object *)
+Definition mmissing (rules : list rule) (holds : list node) : nat :=
+  fold_right (fun r a => missing (fst r) (snd r) holds + a) 0 rules.
